@@ -12,6 +12,12 @@ static void emit_context_error(
     const char *hint
 );
 
+/* Number of error diagnostics printed by expression-level checks during the current
+ * type_check() run.  check_expression() has no TypeChecker to flag, so type_check()'s
+ * verdict also consults this counter: a reported type error must fail the compilation
+ * (spec 3.3), not just be printed. */
+static int g_typecheck_error_diagnostics = 0;
+
 /* Type checking context */
 typedef struct {
     Environment *env;
@@ -662,6 +668,7 @@ static Type check_expression_impl(ASTNode *expr, Environment *env) {
             char **parts = expr->as.qualified_name.name_parts;
             
             if (part_count < 2) {
+                g_typecheck_error_diagnostics++;
                 fprintf(stderr, "Error at line %d, column %d: Invalid qualified name (need at least 2 parts)\n",
                         expr->line, expr->column);
                 return TYPE_UNKNOWN;
@@ -736,6 +743,7 @@ static Type check_expression_impl(ASTNode *expr, Environment *env) {
             }
             
             /* Nested modules not yet supported */
+            g_typecheck_error_diagnostics++;
             fprintf(stderr, "Error at line %d, column %d: Nested module paths not yet implemented\n",
                     expr->line, expr->column);
             return TYPE_UNKNOWN;
@@ -759,9 +767,11 @@ static Type check_expression_impl(ASTNode *expr, Environment *env) {
                         if (elem == TYPE_UNKNOWN || elem == TYPE_INT || elem == TYPE_ENUM || elem == TYPE_FLOAT) {
                             return TYPE_ARRAY;
                         }
+                        g_typecheck_error_diagnostics++;
                         fprintf(stderr, "Error at line %d, column %d: Unary minus requires array<int> or array<float>\n", expr->line, expr->column);
                         return TYPE_UNKNOWN;
                     }
+                    g_typecheck_error_diagnostics++;
                     fprintf(stderr, "Error at line %d, column %d: Unary minus requires numeric type\n", expr->line, expr->column);
                     return TYPE_UNKNOWN;
                 }
@@ -814,6 +824,7 @@ static Type check_expression_impl(ASTNode *expr, Environment *env) {
 
                     if (op == TOKEN_PERCENT) {
                         if (left_elem == TYPE_INT && right_elem == TYPE_INT) return TYPE_ARRAY;
+                        g_typecheck_error_diagnostics++;
                         fprintf(stderr, "Error at line %d, column %d: %% only supported on array<int> or array<u8>\n", expr->line, expr->column);
                         return TYPE_UNKNOWN;
                     }
@@ -1010,6 +1021,7 @@ static Type check_expression_impl(ASTNode *expr, Environment *env) {
                 /* First, check the inner function call */
                 Type inner_type = check_expression(expr->as.call.func_expr, env);
                 if (inner_type != TYPE_FUNCTION) {
+                    g_typecheck_error_diagnostics++;
                     fprintf(stderr, "Error at line %d, column %d: Expression does not return a function\n",
                             expr->line, expr->column);
                     return TYPE_UNKNOWN;
@@ -1064,6 +1076,7 @@ static Type check_expression_impl(ASTNode *expr, Environment *env) {
             /* Result<T, E> helper intrinsics (generic-function stopgap) */
             if (strcmp(expr->as.call.name, "result_is_ok") == 0 || strcmp(expr->as.call.name, "result_is_err") == 0) {
                 if (expr->as.call.arg_count != 1) {
+                    g_typecheck_error_diagnostics++;
                     fprintf(stderr, "Error at line %d, column %d: %s requires 1 argument\n",
                             expr->line, expr->column, expr->as.call.name);
                     return TYPE_UNKNOWN;
@@ -1077,6 +1090,7 @@ static Type check_expression_impl(ASTNode *expr, Environment *env) {
                 strcmp(expr->as.call.name, "result_unwrap_or") == 0) {
                 int expected = (strcmp(expr->as.call.name, "result_unwrap_or") == 0) ? 2 : 1;
                 if (expr->as.call.arg_count != expected) {
+                    g_typecheck_error_diagnostics++;
                     fprintf(stderr, "Error at line %d, column %d: %s requires %d argument(s)\n",
                             expr->line, expr->column, expr->as.call.name, expected);
                     return TYPE_UNKNOWN;
@@ -1085,6 +1099,7 @@ static Type check_expression_impl(ASTNode *expr, Environment *env) {
                 ASTNode *res_expr = expr->as.call.args[0];
                 Type res_type = check_expression(res_expr, env);
                 if (res_type != TYPE_UNION) {
+                    g_typecheck_error_diagnostics++;
                     fprintf(stderr, "Error at line %d, column %d: %s requires a Result<T, E> union value\n",
                             expr->line, expr->column, expr->as.call.name);
                     return TYPE_UNKNOWN;
@@ -1107,6 +1122,7 @@ static Type check_expression_impl(ASTNode *expr, Environment *env) {
                 if (strcmp(expr->as.call.name, "result_unwrap_or") == 0) {
                     Type default_type = check_expression(expr->as.call.args[1], env);
                     if (default_type != out_type) {
+                        g_typecheck_error_diagnostics++;
                         fprintf(stderr, "Error at line %d, column %d: result_unwrap_or default value type mismatch\n",
                                 expr->line, expr->column);
                     }
@@ -1117,6 +1133,7 @@ static Type check_expression_impl(ASTNode *expr, Environment *env) {
 
             if (strcmp(expr->as.call.name, "result_map") == 0 || strcmp(expr->as.call.name, "result_and_then") == 0) {
                 if (expr->as.call.arg_count != 2) {
+                    g_typecheck_error_diagnostics++;
                     fprintf(stderr, "Error at line %d, column %d: %s requires 2 arguments\n",
                             expr->line, expr->column, expr->as.call.name);
                     return TYPE_UNKNOWN;
@@ -1371,6 +1388,7 @@ static Type check_expression_impl(ASTNode *expr, Environment *env) {
                 /* HashMap<K,V> core built-ins (only if no user-defined function with same name exists) */
                 if (strcmp(expr->as.call.name, "map_new") == 0) {
                     if (expr->as.call.arg_count != 0) {
+                        g_typecheck_error_diagnostics++;
                         fprintf(stderr, "Error at line %d, column %d: map_new requires 0 arguments\n",
                                 expr->line, expr->column);
                         return TYPE_UNKNOWN;
@@ -1378,6 +1396,7 @@ static Type check_expression_impl(ASTNode *expr, Environment *env) {
 
                     /* Requires type context (e.g., let hm: HashMap<K,V> = (map_new)) */
                     if (!expr->as.call.return_struct_type_name) {
+                        g_typecheck_error_diagnostics++;
                         fprintf(stderr, "Error at line %d, column %d: map_new requires a HashMap<K,V> type annotation\n",
                                 expr->line, expr->column);
                         return TYPE_UNKNOWN;
@@ -1387,6 +1406,7 @@ static Type check_expression_impl(ASTNode *expr, Environment *env) {
 
                 if (strcmp(expr->as.call.name, "map_put") == 0 || strcmp(expr->as.call.name, "map_set") == 0) {
                     if (expr->as.call.arg_count != 3) {
+                        g_typecheck_error_diagnostics++;
                         fprintf(stderr, "Error at line %d, column %d: %s requires 3 arguments\n",
                                 expr->line, expr->column, expr->as.call.name);
                         return TYPE_UNKNOWN;
@@ -1395,6 +1415,7 @@ static Type check_expression_impl(ASTNode *expr, Environment *env) {
                     Type key_t = check_expression(expr->as.call.args[1], env);
                     Type val_t = check_expression(expr->as.call.args[2], env);
                     if (hm_t != TYPE_HASHMAP) {
+                        g_typecheck_error_diagnostics++;
                         fprintf(stderr, "Error at line %d, column %d: %s expects HashMap as first argument\n",
                                 expr->line, expr->column, expr->as.call.name);
                         return TYPE_UNKNOWN;
@@ -1403,11 +1424,13 @@ static Type check_expression_impl(ASTNode *expr, Environment *env) {
                     Type exp_k = TYPE_UNKNOWN;
                     Type exp_v = TYPE_UNKNOWN;
                     if (!hashmap_extract_kv(hm_info, &exp_k, &exp_v)) {
+                        g_typecheck_error_diagnostics++;
                         fprintf(stderr, "Error at line %d, column %d: Cannot infer HashMap<K,V> type arguments\n",
                                 expr->line, expr->column);
                         return TYPE_UNKNOWN;
                     }
                     if (!types_match(key_t, exp_k) || !types_match(val_t, exp_v)) {
+                        g_typecheck_error_diagnostics++;
                         fprintf(stderr, "Error at line %d, column %d: %s expects key %s and value %s\n",
                                 expr->line, expr->column, expr->as.call.name, type_to_string(exp_k), type_to_string(exp_v));
                         return TYPE_UNKNOWN;
@@ -1417,6 +1440,7 @@ static Type check_expression_impl(ASTNode *expr, Environment *env) {
 
                 if (strcmp(expr->as.call.name, "map_get") == 0) {
                     if (expr->as.call.arg_count != 2) {
+                        g_typecheck_error_diagnostics++;
                         fprintf(stderr, "Error at line %d, column %d: map_get requires 2 arguments\n",
                                 expr->line, expr->column);
                         return TYPE_UNKNOWN;
@@ -1424,6 +1448,7 @@ static Type check_expression_impl(ASTNode *expr, Environment *env) {
                     Type hm_t = check_expression(expr->as.call.args[0], env);
                     Type key_t = check_expression(expr->as.call.args[1], env);
                     if (hm_t != TYPE_HASHMAP) {
+                        g_typecheck_error_diagnostics++;
                         fprintf(stderr, "Error at line %d, column %d: map_get expects HashMap as first argument\n",
                                 expr->line, expr->column);
                         return TYPE_UNKNOWN;
@@ -1432,11 +1457,13 @@ static Type check_expression_impl(ASTNode *expr, Environment *env) {
                     Type exp_k = TYPE_UNKNOWN;
                     Type exp_v = TYPE_UNKNOWN;
                     if (!hashmap_extract_kv(hm_info, &exp_k, &exp_v)) {
+                        g_typecheck_error_diagnostics++;
                         fprintf(stderr, "Error at line %d, column %d: Cannot infer HashMap<K,V> type arguments\n",
                                 expr->line, expr->column);
                         return TYPE_UNKNOWN;
                     }
                     if (!types_match(key_t, exp_k)) {
+                        g_typecheck_error_diagnostics++;
                         fprintf(stderr, "Error at line %d, column %d: map_get expects key type %s\n",
                                 expr->line, expr->column, type_to_string(exp_k));
                         return TYPE_UNKNOWN;
@@ -1446,6 +1473,7 @@ static Type check_expression_impl(ASTNode *expr, Environment *env) {
 
                 if (strcmp(expr->as.call.name, "map_has") == 0) {
                     if (expr->as.call.arg_count != 2) {
+                        g_typecheck_error_diagnostics++;
                         fprintf(stderr, "Error at line %d, column %d: map_has requires 2 arguments\n",
                                 expr->line, expr->column);
                         return TYPE_UNKNOWN;
@@ -1453,6 +1481,7 @@ static Type check_expression_impl(ASTNode *expr, Environment *env) {
                     Type hm_t = check_expression(expr->as.call.args[0], env);
                     Type key_t = check_expression(expr->as.call.args[1], env);
                     if (hm_t != TYPE_HASHMAP) {
+                        g_typecheck_error_diagnostics++;
                         fprintf(stderr, "Error at line %d, column %d: map_has expects HashMap as first argument\n",
                                 expr->line, expr->column);
                         return TYPE_UNKNOWN;
@@ -1460,11 +1489,13 @@ static Type check_expression_impl(ASTNode *expr, Environment *env) {
                     TypeInfo *hm_info = try_get_expr_type_info(expr->as.call.args[0], env);
                     Type exp_k = TYPE_UNKNOWN;
                     if (!hashmap_extract_kv(hm_info, &exp_k, NULL)) {
+                        g_typecheck_error_diagnostics++;
                         fprintf(stderr, "Error at line %d, column %d: Cannot infer HashMap<K,V> type arguments\n",
                                 expr->line, expr->column);
                         return TYPE_UNKNOWN;
                     }
                     if (!types_match(key_t, exp_k)) {
+                        g_typecheck_error_diagnostics++;
                         fprintf(stderr, "Error at line %d, column %d: map_has expects key type %s\n",
                                 expr->line, expr->column, type_to_string(exp_k));
                         return TYPE_UNKNOWN;
@@ -1474,6 +1505,7 @@ static Type check_expression_impl(ASTNode *expr, Environment *env) {
 
                 if (strcmp(expr->as.call.name, "map_remove") == 0) {
                     if (expr->as.call.arg_count != 2) {
+                        g_typecheck_error_diagnostics++;
                         fprintf(stderr, "Error at line %d, column %d: map_remove requires 2 arguments\n",
                                 expr->line, expr->column);
                         return TYPE_UNKNOWN;
@@ -1481,6 +1513,7 @@ static Type check_expression_impl(ASTNode *expr, Environment *env) {
                     Type hm_t = check_expression(expr->as.call.args[0], env);
                     Type key_t = check_expression(expr->as.call.args[1], env);
                     if (hm_t != TYPE_HASHMAP) {
+                        g_typecheck_error_diagnostics++;
                         fprintf(stderr, "Error at line %d, column %d: map_remove expects HashMap as first argument\n",
                                 expr->line, expr->column);
                         return TYPE_UNKNOWN;
@@ -1488,11 +1521,13 @@ static Type check_expression_impl(ASTNode *expr, Environment *env) {
                     TypeInfo *hm_info = try_get_expr_type_info(expr->as.call.args[0], env);
                     Type exp_k = TYPE_UNKNOWN;
                     if (!hashmap_extract_kv(hm_info, &exp_k, NULL)) {
+                        g_typecheck_error_diagnostics++;
                         fprintf(stderr, "Error at line %d, column %d: Cannot infer HashMap<K,V> type arguments\n",
                                 expr->line, expr->column);
                         return TYPE_UNKNOWN;
                     }
                     if (!types_match(key_t, exp_k)) {
+                        g_typecheck_error_diagnostics++;
                         fprintf(stderr, "Error at line %d, column %d: map_remove expects key type %s\n",
                                 expr->line, expr->column, type_to_string(exp_k));
                         return TYPE_UNKNOWN;
@@ -1502,12 +1537,14 @@ static Type check_expression_impl(ASTNode *expr, Environment *env) {
 
                 if (strcmp(expr->as.call.name, "map_length") == 0 || strcmp(expr->as.call.name, "map_size") == 0) {
                     if (expr->as.call.arg_count != 1) {
+                        g_typecheck_error_diagnostics++;
                         fprintf(stderr, "Error at line %d, column %d: %s requires 1 argument\n",
                                 expr->line, expr->column, expr->as.call.name);
                         return TYPE_UNKNOWN;
                     }
                     Type hm_t = check_expression(expr->as.call.args[0], env);
                     if (hm_t != TYPE_HASHMAP) {
+                        g_typecheck_error_diagnostics++;
                         fprintf(stderr, "Error at line %d, column %d: %s expects HashMap as first argument\n",
                                 expr->line, expr->column, expr->as.call.name);
                         return TYPE_UNKNOWN;
@@ -1517,12 +1554,14 @@ static Type check_expression_impl(ASTNode *expr, Environment *env) {
 
                 if (strcmp(expr->as.call.name, "map_clear") == 0 || strcmp(expr->as.call.name, "map_free") == 0) {
                     if (expr->as.call.arg_count != 1) {
+                        g_typecheck_error_diagnostics++;
                         fprintf(stderr, "Error at line %d, column %d: %s requires 1 argument\n",
                                 expr->line, expr->column, expr->as.call.name);
                         return TYPE_UNKNOWN;
                     }
                     Type hm_t = check_expression(expr->as.call.args[0], env);
                     if (hm_t != TYPE_HASHMAP) {
+                        g_typecheck_error_diagnostics++;
                         fprintf(stderr, "Error at line %d, column %d: %s expects HashMap as first argument\n",
                                 expr->line, expr->column, expr->as.call.name);
                         return TYPE_UNKNOWN;
@@ -1532,12 +1571,14 @@ static Type check_expression_impl(ASTNode *expr, Environment *env) {
 
                 if (strcmp(expr->as.call.name, "map_keys") == 0 || strcmp(expr->as.call.name, "map_values") == 0) {
                     if (expr->as.call.arg_count != 1) {
+                        g_typecheck_error_diagnostics++;
                         fprintf(stderr, "Error at line %d, column %d: %s requires 1 argument\n",
                                 expr->line, expr->column, expr->as.call.name);
                         return TYPE_UNKNOWN;
                     }
                     Type hm_t = check_expression(expr->as.call.args[0], env);
                     if (hm_t != TYPE_HASHMAP) {
+                        g_typecheck_error_diagnostics++;
                         fprintf(stderr, "Error at line %d, column %d: %s expects HashMap as first argument\n",
                                 expr->line, expr->column, expr->as.call.name);
                         return TYPE_UNKNOWN;
@@ -1739,6 +1780,7 @@ static Type check_expression_impl(ASTNode *expr, Environment *env) {
                             if (func->params[i].type == TYPE_STRUCT && func->params[i].struct_type_name) {
                                 arg->as.struct_literal.struct_name = strdup(func->params[i].struct_type_name);
                             } else {
+                                g_typecheck_error_diagnostics++;
                                 fprintf(stderr, "Error at line %d, column %d: Cannot infer struct type for anonymous literal in function argument\n",
                                         arg->line, arg->column);
                             }
@@ -2163,6 +2205,7 @@ static Type check_expression_impl(ASTNode *expr, Environment *env) {
                 for (int i = 1; i < expr->as.cond_expr.clause_count; i++) {
                     Type val_type = check_expression(expr->as.cond_expr.values[i], env);
                     if (val_type != result_type && result_type != TYPE_UNKNOWN && val_type != TYPE_UNKNOWN) {
+                        g_typecheck_error_diagnostics++;
                         fprintf(stderr, "Error at line %d, column %d: All cond clause values must have the same type\n",
                                 expr->line, expr->column);
                     }
@@ -2172,6 +2215,7 @@ static Type check_expression_impl(ASTNode *expr, Environment *env) {
             /* Type check else value (must match clause values) */
             Type else_type = check_expression(expr->as.cond_expr.else_value, env);
             if (else_type != result_type && result_type != TYPE_UNKNOWN && else_type != TYPE_UNKNOWN) {
+                g_typecheck_error_diagnostics++;
                 fprintf(stderr, "Error at line %d, column %d: Cond else value must have the same type as clause values\n",
                         expr->line, expr->column);
             }
@@ -2182,6 +2226,7 @@ static Type check_expression_impl(ASTNode *expr, Environment *env) {
         case AST_STRUCT_LITERAL: {
             /* Check if struct name was inferred (should happen in let/return/call context) */
             if (expr->as.struct_literal.struct_name == NULL) {
+                g_typecheck_error_diagnostics++;
                 fprintf(stderr, "Error at line %d, column %d: Anonymous struct literal requires type context\n",
                         expr->line, expr->column);
                 return TYPE_UNKNOWN;
@@ -2209,6 +2254,7 @@ static Type check_expression_impl(ASTNode *expr, Environment *env) {
                 /* Find the variant index */
                 int variant_idx = env_get_union_variant_index(env, union_name, variant_name);
                 if (variant_idx < 0) {
+                    g_typecheck_error_diagnostics++;
                     fprintf(stderr, "Error at line %d, column %d: Unknown variant '%s' in union '%s'\n",
                             expr->line, expr->column, variant_name, union_name);
                     free(union_name);
@@ -2217,6 +2263,7 @@ static Type check_expression_impl(ASTNode *expr, Environment *env) {
                 
                 /* Verify field count matches */
                 if (expr->as.struct_literal.field_count != udef->variant_field_counts[variant_idx]) {
+                    g_typecheck_error_diagnostics++;
                     fprintf(stderr, "Error at line %d, column %d: Variant '%s.%s' expects %d fields, got %d\n",
                             expr->line, expr->column, union_name, variant_name,
                             udef->variant_field_counts[variant_idx], expr->as.struct_literal.field_count);
@@ -2255,6 +2302,7 @@ static Type check_expression_impl(ASTNode *expr, Environment *env) {
                     }
 
                     if (!types_match(field_type, expected)) {
+                        g_typecheck_error_diagnostics++;
                         fprintf(stderr, "Error at line %d, column %d: Field type mismatch in variant '%s.%s'\n",
                                 expr->line, expr->column, union_name, variant_name);
                     }
@@ -2273,6 +2321,7 @@ static Type check_expression_impl(ASTNode *expr, Environment *env) {
             /* Check that struct is defined */
             StructDef *sdef = env_get_struct(env, expr->as.struct_literal.struct_name);
             if (!sdef) {
+                g_typecheck_error_diagnostics++;
                 fprintf(stderr, "Error at line %d, column %d: Undefined struct '%s'\n",
                         expr->line, expr->column, expr->as.struct_literal.struct_name);
                 return TYPE_UNKNOWN;
@@ -2286,6 +2335,7 @@ static Type check_expression_impl(ASTNode *expr, Environment *env) {
             
             /* Check that all fields are provided and types match */
             if (expr->as.struct_literal.field_count != sdef->field_count) {
+                g_typecheck_error_diagnostics++;
                 fprintf(stderr, "Error at line %d, column %d: Struct '%s' expects %d fields, got %d\n",
                         expr->line, expr->column, expr->as.struct_literal.struct_name,
                         sdef->field_count, expr->as.struct_literal.field_count);
@@ -2306,6 +2356,7 @@ static Type check_expression_impl(ASTNode *expr, Environment *env) {
                 }
                 
                 if (field_index == -1) {
+                    g_typecheck_error_diagnostics++;
                     fprintf(stderr, "Error at line %d, column %d: Unknown field '%s' in struct '%s'\n",
                             expr->line, expr->column, field_name, expr->as.struct_literal.struct_name);
                     fprintf(stderr, "  Known fields:");
@@ -2319,6 +2370,7 @@ static Type check_expression_impl(ASTNode *expr, Environment *env) {
                 /* Check field type */
                 Type field_type = check_expression(expr->as.struct_literal.field_values[i], env);
                 if (!types_match(field_type, sdef->field_types[field_index])) {
+                    g_typecheck_error_diagnostics++;
                     fprintf(stderr, "Error at line %d, column %d: Field '%s' type mismatch in struct '%s' (expected %s, got %s)\n",
                             expr->line, expr->column, field_name, expr->as.struct_literal.struct_name,
                             type_to_string(sdef->field_types[field_index]), type_to_string(field_type));
@@ -2384,6 +2436,7 @@ static Type check_expression_impl(ASTNode *expr, Environment *env) {
             /* Get the specific struct type name */
             const char *struct_name = get_struct_type_name(expr->as.field_access.object, env);
             if (!struct_name) {
+                g_typecheck_error_diagnostics++;
                 fprintf(stderr, "Error at line %d, column %d: Cannot determine struct type for field access\n",
                         expr->line, expr->column);
                 return TYPE_UNKNOWN;
@@ -2410,6 +2463,7 @@ static Type check_expression_impl(ASTNode *expr, Environment *env) {
                 /* Find the variant */
                 int variant_idx = env_get_union_variant_index(env, union_name, variant_name);
                 if (variant_idx < 0) {
+                    g_typecheck_error_diagnostics++;
                     fprintf(stderr, "Error at line %d, column %d: Unknown variant '%s' in union '%s'\n",
                             expr->line, expr->column, variant_name, union_name);
                     free(union_name);
@@ -2454,6 +2508,7 @@ static Type check_expression_impl(ASTNode *expr, Environment *env) {
                 }
                 
                 /* Field not found */
+                g_typecheck_error_diagnostics++;
                 fprintf(stderr, "Error at line %d, column %d: Variant '%s' of union '%s' has no field '%s'\n",
                         expr->line, expr->column, variant_name, union_name, field_name);
                 free(union_name);
@@ -2466,6 +2521,7 @@ static Type check_expression_impl(ASTNode *expr, Environment *env) {
             /* Look up the struct definition */
             StructDef *sdef = env_get_struct(env, struct_name);
             if (!sdef) {
+                g_typecheck_error_diagnostics++;
                 fprintf(stderr, "Error at line %d, column %d: Undefined struct '%s'\n",
                         expr->line, expr->column, struct_name);
                 return TYPE_UNKNOWN;
@@ -2480,6 +2536,7 @@ static Type check_expression_impl(ASTNode *expr, Environment *env) {
             }
             
             /* Field not found */
+            g_typecheck_error_diagnostics++;
             fprintf(stderr, "Error at line %d, column %d: Struct '%s' has no field '%s'\n",
                     expr->line, expr->column, struct_name, field_name);
             return TYPE_UNKNOWN;
@@ -2489,6 +2546,7 @@ static Type check_expression_impl(ASTNode *expr, Environment *env) {
             /* Check that union is defined */
             UnionDef *udef = env_get_union(env, expr->as.union_construct.union_name);
             if (!udef) {
+                g_typecheck_error_diagnostics++;
                 fprintf(stderr, "Error at line %d, column %d: Undefined union '%s'\n",
                         expr->line, expr->column, expr->as.union_construct.union_name);
                 return TYPE_UNKNOWN;
@@ -2499,6 +2557,7 @@ static Type check_expression_impl(ASTNode *expr, Environment *env) {
                 expr->as.union_construct.union_name, 
                 expr->as.union_construct.variant_name);
             if (variant_idx < 0) {
+                g_typecheck_error_diagnostics++;
                 fprintf(stderr, "Error at line %d, column %d: Unknown variant '%s' in union '%s'\n",
                         expr->line, expr->column, 
                         expr->as.union_construct.variant_name,
@@ -2509,6 +2568,7 @@ static Type check_expression_impl(ASTNode *expr, Environment *env) {
             /* Check that field count matches */
             int expected_field_count = udef->variant_field_counts[variant_idx];
             if (expr->as.union_construct.field_count != expected_field_count) {
+                g_typecheck_error_diagnostics++;
                 fprintf(stderr, "Error at line %d, column %d: Variant '%s' expects %d fields, got %d\n",
                         expr->line, expr->column,
                         expr->as.union_construct.variant_name,
@@ -2531,6 +2591,7 @@ static Type check_expression_impl(ASTNode *expr, Environment *env) {
                 }
                 
                 if (field_index < 0) {
+                    g_typecheck_error_diagnostics++;
                     fprintf(stderr, "Error at line %d, column %d: Unknown field '%s' in variant '%s'\n",
                             expr->line, expr->column, field_name,
                             expr->as.union_construct.variant_name);
@@ -2548,6 +2609,7 @@ static Type check_expression_impl(ASTNode *expr, Environment *env) {
                     /* This is likely a generic type parameter - accept it for now */
                     /* The transpiler will handle concrete type generation */
                 } else if (actual_type != expected_type) {
+                    g_typecheck_error_diagnostics++;
                     fprintf(stderr, "Error at line %d, column %d: Field '%s' expects type '%s', got '%s'\n",
                             expr->line, expr->column, field_name,
                             type_to_string(expected_type),
@@ -2563,6 +2625,7 @@ static Type check_expression_impl(ASTNode *expr, Environment *env) {
             /* Check the expression being matched */
             Type match_type = check_expression(expr->as.match_expr.expr, env);
             if (match_type != TYPE_UNION) {
+                g_typecheck_error_diagnostics++;
                 fprintf(stderr, "Error at line %d, column %d: Match expression must be a union type\n",
                         expr->line, expr->column);
                 return TYPE_UNKNOWN;
@@ -2672,6 +2735,7 @@ static Type check_expression_impl(ASTNode *expr, Environment *env) {
                 if (i == 0) {
                     return_type = arm_type;
                 } else if (arm_type != return_type && arm_type != TYPE_VOID) {
+                    g_typecheck_error_diagnostics++;
                     fprintf(stderr, "Error at line %d, column %d: Match arms must all return the same type\n",
                             expr->line, expr->column);
                 }
@@ -2784,6 +2848,7 @@ static Type check_expression_impl(ASTNode *expr, Environment *env) {
             for (int i = 0; i < element_count; i++) {
                 Type elem_type = check_expression(expr->as.tuple_literal.elements[i], env);
                 if (elem_type == TYPE_UNKNOWN) {
+                    g_typecheck_error_diagnostics++;
                     fprintf(stderr, "Error at line %d, column %d: Tuple element %d has unknown type\n",
                             expr->line, expr->column, i);
                     return TYPE_UNKNOWN;
@@ -2799,6 +2864,7 @@ static Type check_expression_impl(ASTNode *expr, Environment *env) {
             Type tuple_type = check_expression(expr->as.tuple_index.tuple, env);
             
             if (tuple_type != TYPE_TUPLE) {
+                g_typecheck_error_diagnostics++;
                 fprintf(stderr, "Error at line %d, column %d: Tuple index access on non-tuple type\n",
                         expr->line, expr->column);
                 return TYPE_UNKNOWN;
@@ -2812,6 +2878,7 @@ static Type check_expression_impl(ASTNode *expr, Environment *env) {
             if (tuple_expr->type == AST_TUPLE_LITERAL) {
                 int element_count = tuple_expr->as.tuple_literal.element_count;
                 if (index < 0 || index >= element_count) {
+                    g_typecheck_error_diagnostics++;
                     fprintf(stderr, "Error at line %d, column %d: Tuple index %d out of bounds (tuple has %d elements)\n",
                             expr->line, expr->column, index, element_count);
                     return TYPE_UNKNOWN;
@@ -2830,6 +2897,7 @@ static Type check_expression_impl(ASTNode *expr, Environment *env) {
                     
                     /* Check bounds */
                     if (index < 0 || index >= type_info->tuple_element_count) {
+                        g_typecheck_error_diagnostics++;
                         fprintf(stderr, "Error at line %d, column %d: Tuple index %d out of bounds (tuple has %d elements)\n",
                                 expr->line, expr->column, index, type_info->tuple_element_count);
                         return TYPE_UNKNOWN;
@@ -2848,6 +2916,7 @@ static Type check_expression_impl(ASTNode *expr, Environment *env) {
         }
 
         default:
+            g_typecheck_error_diagnostics++;
             fprintf(stderr, "Error at line %d, column %d: Invalid expression type\n", expr->line, expr->column);
             return TYPE_UNKNOWN;
     }
@@ -3861,12 +3930,6 @@ static void print_error_context_line(int line, int column, int caret_len, const 
     }
     fprintf(stderr, "%s\n", CEND);
 }
-
-/* Number of error diagnostics printed by emit_context_error() during the current
- * type_check() / type_check_module() run.  Expression-level checks have no TypeChecker to
- * flag, so the run's verdict also consults this counter: a reported type error must fail
- * the compilation (spec 3.3), not just be printed. */
-static int g_typecheck_error_diagnostics = 0;
 
 static void emit_context_error(
     const char *title,
